@@ -484,3 +484,40 @@ func init() {
 	}
 	intrinsics["(*github.com/alitto/pond.WorkerPool).StopAndWait"] = func(fr *frame, a []value) value { return nil }
 }
+
+
+// notHandled is returned by an intrinsic that declines a call; the function body is then interpreted.
+type notHandled struct{}
+
+func init() {
+	// time.Parse on a symbolic string: the outcome is either a parse error or some instant; which one
+	// is irrelevant to the properties checked (the instant is a fixed one), both are explored.
+	intrinsics["time.Parse"] = func(fr *frame, a []value) value {
+		if _, ok := a[1].(string); ok {
+			return notHandled{}
+		}
+		if X.choose("time.Parse(symbolic)", 2) == 0 {
+			return tuple{zero(fr.i.namedType("time", "Time")), newErrorString(fr.i, "parsing time: cannot parse symbolic input")}
+		}
+		const base = 64029052800 // 2030-01-01T00:00:00Z
+		return tuple{structure{uint64(0), int64(base - 86400), (*value)(nil)}, iface{}}
+	}
+	const glt = "(*github.com/formancehq/go-libs/v5/pkg/types/time.Time).UnmarshalJSON"
+	intrinsics[glt] = func(fr *frame, a []value) value {
+		sb, ok := a[1].(symBytes)
+		if !ok {
+			return notHandled{}
+		}
+		n, serr := treeOfBytes(sb)
+		if serr != nil || n.k != jStr {
+			return newErrorString(fr.i, "invalid date format")
+		}
+		pkg := fr.i.prog.ImportedPackage("github.com/formancehq/go-libs/v5/pkg/types/time")
+		res := call(fr.i, fr, 0, pkg.Func("ParseTime"), []value{n.s}).(tuple)
+		if e, bad := errIfaceOf(res[1]); bad {
+			return e
+		}
+		store(fr.i.namedType("github.com/formancehq/go-libs/v5/pkg/types/time", "Time"), a[0].(*value), res[0])
+		return iface{}
+	}
+}
